@@ -286,6 +286,185 @@ end Generated.Order
 		eph["hasCall_set_for_calls"] = strings.Contains(c.Src(fd.Body), "if r.IsCall() { hasCall = true }")
 	}
 	c.Fact("order.ephemeral_session", eph)
+
+	// ---- fan-out: notifySessions sends to one session after the other, synchronously, and returns after the loop.
+	// The Lean model's `fstep` (Order/Fan.lean) — `fret g` enabled only when every copy has been dealt with — and
+	// the theorems `fanout_returns_after_every_send` / `fanout_end_before_later_start` stand on this shape.
+	fan := map[string]any{}
+	if fd := c.Func("mcp", "", "notifySessions"); fd != nil && fd.Body != nil {
+		var loops []*ast.RangeStmt
+		goStmts, funcLits, calls := 0, 0, 0
+		ast.Inspect(fd.Body, func(x ast.Node) bool {
+			switch n := x.(type) {
+			case *ast.GoStmt:
+				goStmts++
+			case *ast.FuncLit:
+				funcLits++
+			case *ast.CallExpr:
+				if id, ok := n.Fun.(*ast.Ident); ok && id.Name == "handleNotify" {
+					calls++
+				}
+			}
+			return true
+		})
+		for _, st := range fd.Body.List {
+			if rs, ok := st.(*ast.RangeStmt); ok {
+				loops = append(loops, rs)
+			}
+		}
+		fan["go_statements"] = goStmts
+		fan["func_literals"] = funcLits
+		fan["handleNotify_calls"] = calls
+		fan["top_level_loops"] = len(loops)
+		if len(loops) == 1 {
+			rs := loops[0]
+			fan["range_over"] = c.Src(rs.X)
+			var body []string
+			for _, st := range rs.Body.List {
+				switch n := st.(type) {
+				case *ast.IfStmt:
+					hd := "if "
+					if n.Init != nil {
+						hd += c.Src(n.Init) + "; "
+					}
+					var inner []string
+					for _, b := range n.Body.List {
+						if es, ok := b.(*ast.ExprStmt); ok {
+							if ce, ok := es.X.(*ast.CallExpr); ok {
+								inner = append(inner, c.Src(ce.Fun)+"(…)")
+								continue
+							}
+						}
+						inner = append(inner, c.Src(b))
+					}
+					els := ""
+					if n.Else != nil {
+						els = " else …"
+					}
+					body = append(body, hd+c.Src(n.Cond)+" { "+strings.Join(inner, "; ")+" }"+els)
+				default:
+					body = append(body, c.Src(st))
+				}
+			}
+			fan["loop_body"] = body
+			// nothing in the loop leaves it or the function early, or defers work past the iteration
+			var exits []string
+			ast.Inspect(rs.Body, func(x ast.Node) bool {
+				switch n := x.(type) {
+				case *ast.ReturnStmt:
+					exits = append(exits, "return")
+				case *ast.BranchStmt:
+					exits = append(exits, n.Tok.String())
+				case *ast.DeferStmt:
+					exits = append(exits, "defer")
+				case *ast.SelectStmt:
+					exits = append(exits, "select")
+				}
+				return true
+			})
+			if exits == nil {
+				exits = []string{}
+			}
+			fan["loop_exits"] = exits
+			// the loop is the last statement: the function returns when the loop is over
+			fan["loop_is_last"] = fd.Body.List[len(fd.Body.List)-1] == ast.Stmt(rs)
+		}
+		// statements before the loop (an early return for "no sessions" is the only exit)
+		var before []string
+		for _, st := range fd.Body.List {
+			if _, ok := st.(*ast.RangeStmt); ok {
+				break
+			}
+			if is, ok := st.(*ast.IfStmt); ok {
+				var inner []string
+				for _, b := range is.Body.List {
+					inner = append(inner, c.Src(b))
+				}
+				before = append(before, "if "+c.Src(is.Cond)+" { "+strings.Join(inner, "; ")+" }")
+				continue
+			}
+			before = append(before, c.Src(st))
+		}
+		fan["before_loop"] = before
+	} else {
+		bad("notifySessions (mcp/shared.go) not found")
+	}
+	if fd := c.Func("mcp", "", "handleNotify"); fd != nil && fd.Body != nil {
+		var seq []string
+		for _, st := range fd.Body.List {
+			seq = append(seq, c.Src(st))
+		}
+		fan["handleNotify"] = seq
+	} else {
+		bad("handleNotify not found")
+	}
+	// the notifying methods call the fan-out as a plain statement of their own goroutine
+	callers := []string{}
+	callShape := func(label string, fd *ast.FuncDecl) {
+		if fd == nil || fd.Body == nil {
+			bad("%s not found", label)
+			return
+		}
+		plain, other := 0, 0
+		ast.Inspect(fd.Body, func(x ast.Node) bool {
+			switch n := x.(type) {
+			case *ast.GoStmt:
+				if strings.Contains(c.Src(n.Call), "notifySessions(") {
+					other++
+				}
+			case *ast.DeferStmt:
+				if strings.Contains(c.Src(n.Call), "notifySessions(") {
+					other++
+				}
+			case *ast.FuncLit:
+				if strings.Contains(c.Src(n), "notifySessions(") {
+					other++
+				}
+			}
+			return true
+		})
+		for _, st := range fd.Body.List {
+			if es, ok := st.(*ast.ExprStmt); ok {
+				if ce, ok := es.X.(*ast.CallExpr); ok {
+					if id, ok := ce.Fun.(*ast.Ident); ok && id.Name == "notifySessions" {
+						plain++
+					}
+				}
+			}
+		}
+		callers = append(callers, fmt.Sprintf("%s: statement=%d go/defer/closure=%d", label, plain, other))
+	}
+	callShape("changeAndNotify", c.Func("mcp", "", "changeAndNotify"))
+	callShape("Server.ResourceUpdated", c.Func("mcp", "Server", "ResourceUpdated"))
+	callShape("Server.notifySessions", c.Func("mcp", "Server", "notifySessions"))
+	fan["callers"] = callers
+	for _, name := range []string{"AddRoots", "RemoveRoots"} {
+		if fd := c.Func("mcp", "Client", name); fd != nil && fd.Body != nil {
+			var seq []string
+			for _, st := range fd.Body.List {
+				switch n := st.(type) {
+				case *ast.IfStmt:
+					var inner []string
+					for _, b := range n.Body.List {
+						inner = append(inner, c.Src(b))
+					}
+					seq = append(seq, "if "+c.Src(n.Cond)+" { "+strings.Join(inner, "; ")+" }")
+				case *ast.ExprStmt:
+					if ce, ok := n.X.(*ast.CallExpr); ok {
+						seq = append(seq, c.Src(ce.Fun)+"(…)")
+					} else {
+						seq = append(seq, c.Src(st))
+					}
+				default:
+					seq = append(seq, c.Src(st))
+				}
+			}
+			fan["Client."+name] = seq
+		} else {
+			bad("Client.%s not found", name)
+		}
+	}
+	c.Fact("order.fanout_loop", fan)
 }
 
 // orderShape renders the statements the ordering argument depends on in a canonical short form.
